@@ -179,6 +179,11 @@ def run_path(unit, decisions, timeout_ms=1500, truncation=False):
     return res, p
 
 
+# properties whose contracts fix the request pattern of the metadata scan (C01: byte ranges follow the chunk grid; C06: chunking
+# is min(records_per_chunk, lines) and results do not depend on it; C11: one request per chunk)
+IO_CONTRACT_PROPS = {"C01", "C06", "C11"}
+
+
 def path_task(payload, decisions):
     """worker entry: run one path of payload['unit'] and apply payload['analyses']"""
     unit = payload["unit"]
@@ -201,6 +206,14 @@ def path_task(payload, decisions):
         tb = "".join(x for x in traceback.format_exception(res.exc) if "ceos_alos2/" in x and "/tests/" not in x)[-600:]
         if payload.get("gen_dir"):
             print("UNDECIDED", tag, repr(res.exc)[:300], tb)
+        from pyvc.core import ContractRefuted
+
+        if isinstance(res.exc, ContractRefuted) and prop in IO_CONTRACT_PROPS:
+            # the request pattern of the metadata scan is part of these properties' contracts: a refuted invariant is a
+            # failed obligation (the solver's counter-model is attached), not an engine limit
+            sub.decided(f"{prop}/{unit}/chunk-loop/one-request-per-chunk-at-the-contract-position", False, function=fn, kind="post",
+                        backend="z3", detail={"path": tag, "refuted": exc_text(res.exc), "counter_model": res.exc.model[:1200]})
+            return sub.export(), final
         sub.engine_limit(f"{prop}/{unit}/within-verified-subset", f"{exc_text(res.exc)} {tb}", function=fn, group=unit)
         return sub.export(), final
     if payload.get("gen_dir"):
